@@ -436,3 +436,63 @@ def hung_run(rng: random.Random, rid):
     except BaseException:
         r.close()
         raise
+
+
+def cancel_race_run(rng: random.Random, rid, variant: int, limit: int = 2):
+    """Directed histories for 'no later request can receive a stale response' (C08): a response is already readable
+    on the socket when its caller is cancelled inside the very loop iteration that then delivers the bytes, i.e. the
+    cancelled future is still at the head of the queue when data_received runs and its task has not yet run.
+    variant: 0 = A answered, A cancelled; 1 = A half answered, A cancelled, rest follows; 2 = A and B answered,
+    A cancelled; 3 = A answered, B cancelled; 4 = as 0 with a third request issued behind; 5 = A answered and an
+    EVENT behind it, A cancelled."""
+    r = ReqRun(limit=limit)
+    r._rng = rng
+    try:
+        r.connect()
+        conn = r.net.conns[-1]
+        if rng.random() < 0.5:                       # some ordinary traffic first
+            r.issue()
+            r.settle()
+            if conn.unanswered:
+                r.respond(conn, "resp")
+            r.settle()
+        a = r.issue(rng.choice(["GET", "PUT"]))
+        b = r.issue(rng.choice(["GET", "POST"]))
+        c = r.issue() if variant == 4 else None
+        r.settle()
+        if conn.open and conn.unanswered:
+            if variant == 1:
+                r.respond(conn, "half")
+            else:
+                r.respond(conn, "resp", rng.choice([200, 207, 404]))
+            if variant == 2 and conn.unanswered:
+                r.respond(conn, "resp")
+            if variant == 5:
+                r.event(conn)
+            victim = b if variant == 3 else a
+            if victim in r.tasks:
+                r.cancel(victim, in_loop=True)
+            r.step(rng.randrange(0, 3))
+            if variant == 1 and conn.open and conn.id in r.half:
+                r.respond_rest(conn)
+        r.settle()
+        cur = r.net.conns[-1]
+        for _ in range(rng.randrange(0, 3)):
+            if cur.open and cur.unanswered and cur.id not in r.half:
+                r.respond(cur, "resp")
+                r.settle()
+        if rng.random() < 0.5 and r.next_r <= r.nreq:
+            r.advance(rng.choice([1.0, 31.0]))
+            r.settle()
+            cur = r.net.conns[-1]
+            if cur.open and (cur.session is not None or r.limit > 1):
+                r.issue()
+                r.settle()
+                if cur.unanswered:
+                    r.respond(cur, "resp")
+                r.settle()
+        r.finish()
+        return r
+    except BaseException:
+        r.close()
+        raise
